@@ -252,6 +252,16 @@ def r11_2(rep, M, rid, obj, br):
         else:
             rep.violation(rid, f"2D branch: `{norm(s2)[:60]}`", "the point the layer is centred on is not half the sum of the cell vectors: the sheet is shifted out of the "
                           "middle of the cell (and, after wrapping, split across the cell face)", M.where(FQ, s2))
+    # ... and the layer is moved by (centre of the cell) - (its periodic centre of mass)
+    hnames = {norm(s2.targets[0]) for s2 in halves}
+    for s2 in ast.walk(br):
+        if isinstance(s2, ast.Assign) and isinstance(s2.value, ast.BinOp) and isinstance(s2.value.op, (ast.Add, ast.Sub)) \
+                and (norm(s2.value.left) in hnames or norm(s2.value.right) in hnames):
+            if isinstance(s2.value.op, ast.Sub) and norm(s2.value.left) in hnames:
+                rep.ok(rid, f"2D branch: `{norm(s2)[:60]}` moves the centre of mass onto the centre of the cell")
+            else:
+                rep.violation(rid, f"2D branch: `{norm(s2)[:60]}`", "the translation is not (centre of the cell) minus (centre of mass): the layer is moved away from the middle "
+                              "of the cell and split across the cell face by the wrap that follows", M.where(FQ, s2))
     raised = any(isinstance(t, ast.If) and idx and idx in norm(t.test) and "None" in norm(t.test) and any(isinstance(x, ast.Raise) for x in t.body)
                  for t in ast.walk(br))
     if all_true and one_false and loop and raised:
